@@ -46,6 +46,12 @@ def payload(rng, cls, n):
         return pad[:i] + b + pad[i:]
     if cls == "random":
         return rbytes(rng, n)
+    if cls == "wellknown":
+        # payloads that start like well-known protocol markers (they are payloads like any other)
+        head = rng.choice([bytes.fromhex("aa21a9ed"), b"omni", b"RSKBLOCK:", b"id;", b"CC\x02", b"EW ", b"\x00\x00\x00\x00", b"ASCRIBESPOOL", bytes.fromhex("6a24aa21a9ed")])
+        if head == bytes.fromhex("aa21a9ed") and rng.random() < 0.7:
+            return head + rbytes(rng, 32)          # BIP141 witness commitment: exactly 36 bytes
+        return (head + rbytes(rng, max(0, n - len(head))))[:max(n, 1)]
     if cls == "control":
         return bytes(rng.choice([0, 1, 7, 8, 27, 127]) for _ in range(n))
     return b""
@@ -91,7 +97,7 @@ def case(spec):
     coin = spec["coin"]
     rng = random.Random("C16c|%s|%s" % (spec["seed"], spec["n"]))
     scripts = build_outputs(spec)
-    chain = sc.embed_chain(rng, coin, [s for _, s in scripts], outs_per_tx=rng.choice([1, 3, 7]), txs_per_block=rng.choice([1, 2, 5]))
+    chain = sc.embed_chain(rng, coin, [s for _, s in scripts], outs_per_tx=rng.choice([1, 3, 7]), txs_per_block=rng.choice([1, 2, 5]), coinbase_share=0.3)
     work = harness.fresh(os.path.join(spec["work"], "c%d" % spec["n"]))
     d = os.path.join(work, "d")
     datadir.write_datadir(d, COINS[coin], harness.simple_layout(chain))
@@ -144,7 +150,7 @@ def dispatch(spec):
 def plan(chk):
     specs = []
     n = 0
-    classes = ["ascii", "utf8", "newline", "badutf8", "random", "control"]
+    classes = ["ascii", "utf8", "newline", "badutf8", "random", "control", "wellknown"]
     all_lengths = list(range(0, 301))
     big = [520, 1000, 4096, 65535, 65536, 70000]
     coins = COIN_NAMES
@@ -160,6 +166,10 @@ def plan(chk):
             n += 1
             specs.append({"case": "chain", "coin": coin, "seed": chk.seed + rep, "n": n, "classes": ["ascii", "utf8", "badutf8"],
                           "lengths": big if (chk.thorough or ci % 2 == 0) else big[:3], "nranges": 1})
+    for coin in coins:
+        # protocol markers (BIP141 witness commitment, ...) in coinbase and ordinary outputs: payloads like any other
+        n += 1
+        specs.append({"case": "chain", "coin": coin, "seed": chk.seed, "n": n, "classes": ["wellknown"], "lengths": [36] * 14 + [4, 9, 38, 40, 80, 100], "nranges": 2})
     n += 1
     specs.append({"case": "chain", "coin": "bitcoin", "seed": chk.seed, "n": n, "classes": classes, "lengths": list(range(0, 120)), "profile": "debug"})
     n += 1
